@@ -8,6 +8,8 @@ Import ListNotations.
 Inductive cmp_kind :=
 | CmpNeq        (* if keeper != req.Authority { return nil, err }              *)
 | CmpEqualFold  (* if !strings.EqualFold(keeper, req.Authority) { return err } *)
+| CmpGuardNotFirst (* the authority is handed to a helper whose comparison is not its first statement: the helper
+                       can return — an error or nil — before it compares (state-dependent guard)            *)
 | CmpOther      (* mentions the authority in some other condition              *)
 | CmpNone.      (* no statement of the body compares the authority             *)
 
